@@ -171,3 +171,19 @@ Definition j2k_cod_payload (prog layers : Z) (mct : bool) (levels xcbf ycbf : Z)
   : list Z :=
   [0; byte_of prog] ++ be16_bytes layers ++ [if mct then 1 else 0; byte_of levels; byte_of xcbf;
    byte_of ycbf; if ht then 64 else 0; if lossless then 1 else 0].
+
+(* ---------- whole-frame assembly of jpeg/lossless.Encode and lossless14sv1.Encode ----------
+   SOI, JFIF APP0, SOF3, one DHT, SOS, entropy-coded data, EOI - in this order (Encode,
+   writeSOF3, writeDHT, writeSOS, encodeScan). The DHT payload (from the Huffman optimiser)
+   and the (code, length) sequence of the scan (from the predictor) are parameters: they are
+   modelled in the JpegLL area. SV1 is the instance pred = 1. *)
+Definition jfif_app0 : list Z := [74; 70; 73; 70; 0; 1; 1; 0; 0; 1; 0; 1; 0; 0].
+
+Definition lossless_frame (p h w nc pred : Z) (dht : list Z) (ops : list (Z * Z)) : list Z :=
+  write_marker 65496
+  ++ write_segment 65504 jfif_app0
+  ++ write_segment 65475 (lossless_sof3 p h w nc)
+  ++ write_segment 65476 dht
+  ++ write_segment 65498 (lossless_sos nc pred)
+  ++ huff_encode ops
+  ++ write_marker 65497.
